@@ -671,7 +671,7 @@ pub fn run(run: &Run) {
     // (d)
     {
         let case = json!({"kind": "named-sequences", "max_len": 3});
-        run.watch(&case);
+        run.idle();
         let (vs, k) = check_named_sequences(&base.join("named"), 3, &case);
         run.idle();
         run.eval(k);
